@@ -360,6 +360,14 @@ class FieldModel(EvalObj):
             raise TypeError("field element value")
         return FieldElem(self, value % self.size)
 
+    @property
+    def zero(self):
+        return FieldElem(self, 0)
+
+    @property
+    def one(self):
+        return FieldElem(self, 1)
+
 
 class FieldElem(EvalObj):
     def __init__(self, field: FieldModel, value: int):
@@ -371,6 +379,17 @@ class FieldElem(EvalObj):
 
     def __add__(self, o):
         return FieldElem(self.field, self.value ^ o.value)
+
+    __sub__ = __add__
+
+    def __pow__(self, e):
+        if not isinstance(e, int) or isinstance(e, bool):
+            raise TypeError("exponent")
+        if self.value == 0:
+            if e <= 0:
+                raise ZeroDivisionError("0 ** non-positive")
+            return FieldElem(self.field, 0)
+        return FieldElem(self.field, ppowmod(self.value, e % (self.field.size - 1), self.field.modulus.value))
 
     def __eq__(self, o):
         return isinstance(o, FieldElem) and o.value == self.value
